@@ -1,7 +1,7 @@
 // C02 — Viterbi optimality: one-step, end-of-sentence and whole-lattice harnesses.
 // Included at the end of sudachi/src/analysis/lattice.rs under cfg(kani).
 #[cfg(kani)]
-mod verif_c02 {
+mod /*@MOD@*/verif_c02 {
     use super::*;
     use crate::analysis::node::LatticeNode;
 
